@@ -728,20 +728,9 @@ func runCase(c Case) *vt.Outcome {
 			sig = known
 		}
 	}
-	if opt.multiKeyStreaming {
-		// Known: the optimizer marks a summarize as fed in key order when the
-		// sort key is ANY of its keys, the streaming group-by assumes it is the
-		// FIRST.  Without the direction on multi-key summarizes the optimized plan must agree.
-		if r := runOnePost(seq, src, true, nil, noStreamingMultiKeySummarize); r.stage == "" && compare(plain.vals, r.vals) == "" {
-			const known = "C07/sortkey-summarize/sort-key-not-first-groupby-key"
-			if vt.IsKnown(known) {
-				o.Known = append(o.Known, known)
-				return o
-			}
-			sig = known
-		}
-	}
-	if countRE(opt.dag, `"input_sort_dir":-?1`) > 0 && sig != "C07/sortkey-summarize/sort-key-not-first-groupby-key" {
+	// (C07-sortkey-summarize-not-first-key, fixed in e7acaf73a, was classified here
+	// by re-running with the direction taken out of multi-key summarizes only.)
+	if countRE(opt.dag, `"input_sort_dir":-?1`) > 0 {
 		// Is the streaming group-by (Summarize.InputSortDir) the cause?  Run the
 		// optimized plan with the direction taken out again.
 		if r := runOnePost(seq, src, true, nil, noStreamingSummarize); r.stage == "" && compare(plain.vals, r.vals) == "" {
